@@ -298,6 +298,11 @@ def elitism_runs(R, n_runs, seed0):
                                      "ws": [1, 4]}),
         ("xpar-elite-mut", None, {"k": "xpar", "subs": [{"k": "elitism", "subs": [], "ws": []}, {"k": "mutation", "subs": [], "ws": []}], "ws": [1, 2]}),
         ("novelty-only", None, {"k": "novelty", "subs": [], "ws": []}),
+        # a parallel step that is NOT the root (it receives a one-shot iterator) with the elitism branch last
+        ("seq-eval-par-selmut-elite", None, {"k": "seq", "subs": [
+            {"k": "evaluate", "subs": [], "ws": []},
+            {"k": "par", "subs": [{"k": "seq", "subs": [{"k": "tournament", "subs": [], "ws": []}, {"k": "mutation", "subs": [], "ws": []}], "ws": []},
+                                  {"k": "elitism", "subs": [], "ws": []}], "ws": [3, 1]}], "ws": []}),
     ]
     for r in range(n_runs):
         name, mk, tree = comps[r % len(comps)]
@@ -343,7 +348,7 @@ def elitism_runs(R, n_runs, seed0):
             evs.append({"e": "genfit", "g": gi, "fits": obs.gens[gi], "elite_slots": slots, "elite_in": seen})
         if exc:
             evs.append({"e": "runfail", "exc": exc})
-        out.append((f"eliterun/{r}/{name}", evs, {"k": "eliterun", "name": name, "n": n}))
+        out.append((f"eliterun/{r}/{name}", evs, {"k": "eliterun", "name": name, "n": n, "exclusive": name.startswith("xpar")}))
     return out
 
 
